@@ -158,9 +158,12 @@ def Time.Proper (t : Time) : Prop := t.h < 24 ∧ t.mi < 60 ∧ t.s < 60 ∧ t.h
 /-- well-formed configuration: effective period ends unspecified or real
     dates, seven daily lists (or none), every exception has a meaningful
     period and a priority 1..16 -/
+def WeeklyOk : Option (List (List TV)) → Prop
+  | none => True
+  | some wk => wk.length = 7
+
 def ValidCfg (cfg : Cfg) : Prop :=
-  RangeEnd cfg.effStart ∧ RangeEnd cfg.effEnd ∧
-  (∀ wk, cfg.weekly = some wk → wk.length = 7) ∧
+  RangeEnd cfg.effStart ∧ RangeEnd cfg.effEnd ∧ WeeklyOk cfg.weekly ∧
   (∀ se ∈ cfg.exc.getD [], WFPeriod se.period ∧ 1 ≤ se.prio ∧ se.prio ≤ 16)
 
 /-- every entry time is a time of day (no wildcard) -/
@@ -171,15 +174,9 @@ def ProperCfg (cfg : Cfg) : Prop :=
 instance (l : List TV) : Decidable (SortedTVs l) := by unfold SortedTVs; exact inferInstance
 instance (cfg : Cfg) : Decidable (SortedCfg cfg) := by unfold SortedCfg; exact inferInstance
 instance (t : Time) : Decidable t.Proper := by unfold Time.Proper; exact inferInstance
-instance (cfg : Cfg) : Decidable (ValidCfg cfg) := by
-  unfold ValidCfg
-  have : Decidable (∀ wk, cfg.weekly = some wk → wk.length = 7) := by
-    cases h : cfg.weekly with
-    | none => exact isTrue (by intro wk hwk; cases hwk)
-    | some w =>
-      if hl : w.length = 7 then exact isTrue (by intro wk hwk; cases hwk; exact hl)
-      else exact isFalse (fun c => hl (c w rfl))
-  exact inferInstance
+instance (w : Option (List (List TV))) : Decidable (WeeklyOk w) := by
+  cases w <;> unfold WeeklyOk <;> exact inferInstance
+instance (cfg : Cfg) : Decidable (ValidCfg cfg) := by unfold ValidCfg; exact inferInstance
 instance (cfg : Cfg) : Decidable (ProperCfg cfg) := by unfold ProperCfg; exact inferInstance
 
 end BacVerif.Sched
